@@ -63,6 +63,21 @@ def extras(prop, facts, repo):
                         'benign_refactors_silent': sum(x['status'] == 'SILENT' for x in res),
                         'skipped': [x['id'] for x in res if x['status'] == 'SKIPPED'],
                         'items': [{'id': x['id'], 'status': x['status']} for x in res]}
+    # (1b) independently seeded changes (sub-agents) recorded for this property
+    out_json = tempfile.mktemp(prefix='qlint-seeded-', suffix='.json')
+    r = subprocess.run([sys.executable, os.path.join(VERIF, 'selftest', 'run_seeded.py'), '--props', prop, '--jobs', '4', '--json', out_json],
+                       env=env, stdout=subprocess.PIPE, stderr=subprocess.STDOUT, text=True)
+    try:
+        sres = json.load(open(out_json))
+        os.remove(out_json)
+    except Exception:
+        sres = []
+    for x in sres:
+        if (x['status'] == 'MISSED' and x.get('expected') != 'miss') or x['status'] == 'NOCOMPILE':
+            viol.append(Inst('SELFTEST', 'SEEDED|%s|%s' % (prop, x['id']), 'violation', '', 'independently seeded change %s is no longer reported' % x['id'], [prop]))
+    info['seeded'] = {'detected': [x['id'] for x in sres if x['status'] == 'DETECTED'],
+                      'missed_out_of_reach': [x['id'] for x in sres if x['status'] == 'MISSED' and x.get('expected') == 'miss'],
+                      'skipped': [x['id'] for x in sres if x['status'] == 'SKIPPED']}
     # (2) witness crate
     if prop in WITNESS_PROPS:
         w = run_witness(repo)
